@@ -47,6 +47,7 @@ f("blkb-no-operand", ".blkb", "error", "compile", (0, None))
 f("repeat-no-block", ".repeat 2", "error", "compile", (0, None))
 f("long-tape-name", "make_wav \"x17.wav\", \"seventeen chars!!\"", "error", "compile", (0, None))
 f("label-as-insn", "lblinsn1: nop\nlblinsn1", "error", "compile", (1, None))
+f("hash-in-meta", ".word #5", "error", "compile", (0, "#5"))
 f("fp-bad-acc", "ldf r6, ac0", "error", "compile", (0, "r6"))
 # ---- parse-time, non-critical ----------------------------------------------------------------------------------
 f("label-is-register", "r1: nop", "error", "parse", (0, None))
